@@ -77,6 +77,72 @@ Proof.
     reflexivity.
 Qed.
 
+(* ---------- the representation of an integer is not observable ----------
+   (seeded change r4c13b: a fast path that compared a NativeInt with a BigInt by the sign of the
+   BigInt alone, "because a BigInt never fits an isize") *)
+Lemma num_sim_refl n : num_sim F n n.
+Proof. destruct n; simpl; reflexivity. Qed.
+Lemma num_sim_sym a b : num_sim F a b -> num_sim F b a.
+Proof. destruct a, b; simpl; auto. Qed.
+Lemma num_sim_trans a b c : num_sim F a b -> num_sim F b c -> num_sim F a c.
+Proof. destruct a, b, c; simpl; try tauto; congruence. Qed.
+Lemma normalize_sim n : num_sim F (normalize F n) n.
+Proof. destruct n; simpl; try reflexivity. destruct (in_isize z); simpl; reflexivity. Qed.
+Lemma normalize_wf n : num_wf F n -> num_wf F (normalize F n).
+Proof. destruct n; simpl; auto. destruct (in_isize z) eqn:E; simpl; auto. Qed.
+
+Ltac sim_cases a a' b b' :=
+  destruct a, a', b, b'; simpl in *; try contradiction; subst; try reflexivity.
+
+(* = != < <= > >= (and IN, through =): the answer depends on the numbers only *)
+Theorem cmp_sim a a' b b' : num_sim F a a' -> num_sim F b b' -> num_cmp F a b = num_cmp F a' b'.
+Proof. intros H1 H2. unfold num_cmp, coercing. sim_cases a a' b b'. Qed.
+Theorem eq_sim a a' b b' : num_sim F a a' -> num_sim F b b' -> num_eq F a b = num_eq F a' b'.
+Proof. intros H1 H2. unfold num_eq. rewrite (cmp_sim _ _ _ _ H1 H2). reflexivity. Qed.
+Corollary cmp_normalize a b : num_cmp F (normalize F a) (normalize F b) = num_cmp F a b.
+Proof. apply cmp_sim; apply normalize_sim. Qed.
+Corollary eq_normalize a b : num_eq F (normalize F a) (normalize F b) = num_eq F a b.
+Proof. apply eq_sim; apply normalize_sim. Qed.
+(* in particular a computed integer that is back in the isize range compares like the literal *)
+Corollary cmp_bigint_native x y : num_cmp F (BigInt F x) (NativeInt F y) = Some (x ?= y)
+  /\ num_cmp F (NativeInt F x) (BigInt F y) = Some (x ?= y).
+Proof. split; reflexivity. Qed.
+
+(* + - * / and unary minus send representations of the same numbers to representations of the
+   same number (or fail together) *)
+Ltac sim_arith :=
+  repeat match goal with
+         | |- context [checked ?z] =>
+             let E := fresh "E" in destruct (checked z) eqn:E; simpl;
+             [apply checked_some in E; destruct E as [? ?]; subst|]
+         end; simpl; auto.
+Theorem add_sim a a' b b' : num_sim F a a' -> num_sim F b b' -> osim F (add F a b) (add F a' b').
+Proof. intros H1 H2. unfold add, coercing. sim_cases a a' b b'; sim_arith. Qed.
+Theorem sub_sim a a' b b' : num_sim F a a' -> num_sim F b b' -> osim F (sub F a b) (sub F a' b').
+Proof. intros H1 H2. unfold sub, coercing. sim_cases a a' b b'; sim_arith. Qed.
+Theorem mul_sim a a' b b' : num_sim F a a' -> num_sim F b b' -> osim F (mul F a b) (mul F a' b').
+Proof. intros H1 H2. unfold mul, coercing. sim_cases a a' b b'; sim_arith. Qed.
+Theorem div_sim a a' b b' : num_sim F a a' -> num_sim F b b' -> osim F (div F a b) (div F a' b').
+Proof.
+  intros H1 H2. unfold div, coercing. sim_cases a a' b b';
+    repeat match goal with |- context [if ?c then _ else _] => destruct c end; simpl; auto.
+Qed.
+Theorem neg_sim a a' : num_sim F a a' -> osim F (neg F a) (neg F a').
+Proof. intros H. destruct a, a'; simpl in *; try contradiction; subst; sim_arith. Qed.
+Theorem abs_sim a a' : num_wf F a -> num_wf F a' -> num_sim F a a' -> num_sim F (abs F a) (abs F a').
+Proof.
+  intros W1 W2 H. destruct a, a'; simpl in *; try contradiction; subst; auto;
+    try (destruct (checked (Z.abs z0)) as [v|] eqn:E; simpl;
+         [apply checked_some in E as [-> _]; reflexivity|]);
+    unfold checked, in_isize, isize_min, isize_max in *;
+    destruct ((- 2 ^ 63 <=? Z.abs z0) && (Z.abs z0 <=? 2 ^ 63 - 1)) eqn:B; try discriminate;
+    match goal with W : _ && _ = true |- _ => apply andb_true_iff in W as [W1' W2']; apply Z.leb_le in W1', W2' end;
+    apply andb_false_iff in B; destruct B as [B|B]; apply Z.leb_gt in B; lia.
+Qed.
+(* the value of an integer representation is all that is left of it in a term (to_string) *)
+Lemma sim_int_val a a' : num_sim F a a' -> int_val F a = int_val F a'.
+Proof. destruct a, a'; simpl; try contradiction; congruence. Qed.
+
 (* where the old code did not panic and was right, the fix changes nothing *)
 Theorem neg0_agrees n r : neg0 F n = Val r -> r = neg F n.
 Proof.
